@@ -2,6 +2,7 @@ import MageModel.Generated.Shapes
 import MageModel.Generated.Facts
 import MageModel.Generated.Template
 import MageModel.Bridge.Expected
+import MageModel.Invoke.Steps
 /-!
 Bridge for the invocation chain (C05 C08 C09 C10 C11 C12 C20): mage/main.go's ParseAndRun / Parse / Invoke /
 RunCompiled / Magefiles / Compile / GenerateMainfile / ExeName, internal/run.go and the status helpers still have the
@@ -49,4 +50,13 @@ theorem shape_OutputDebugDir : Generated.Shapes.internal_OutputDebugDir = Bridge
 theorem mainfile_name : Generated.Facts.mage_mainfile = "mage_output_file.go" := by decide
 theorem initfile_name : Generated.Facts.mage_initFile = "magefile.go" := by decide
 theorem magefiles_dir_name : Generated.Facts.mage_MagefilesDirName = "magefiles" := by decide
+
+/-- the configuration of the invocation model regenerated from mage/main.go -/
+def generatedCfg : Option MageModel.Invoke.Cfg :=
+  match Generated.Facts.invoke_deferBeforeGenerate, Generated.Facts.invoke_explicitRemove, Generated.Facts.listGoFiles_skipsMain with
+  | some a, some b, some c => some ⟨a, b, c⟩
+  | _, _, _ => none
+
+/-- … is the constant the theorems of C05 C08 C09 C20 are about -/
+theorem cfg_is_fixed : generatedCfg = some MageModel.Invoke.Cfg.fixed := by decide
 end MageModel.Bridge.Invoke
